@@ -475,7 +475,7 @@ func scFD(c Case, fc *frameCtx) *evid.Failure {
 		{Destination: tcpip.Address("\x0a\x00\x00\x00"), Mask: tcpip.AddressMask("\xff\xff\xff\x00"), NIC: 1},
 		{Destination: tcpip.Address("\x00\x00\x00\x00"), Mask: tcpip.AddressMask("\x00\x00\x00\x00"), Gateway: gw, NIC: 1},
 	}
-	fd, err := netsim.NewFD(uint32(c.MTU), []tcpip.Address{netsim.A4}, nil, routes)
+	fd, err := netsim.NewFD(uint32(c.MTU), []tcpip.Address{netsim.A4}, []tcpip.Address{netsim.A6}, routes)
 	if err != nil {
 		return nil
 	}
@@ -564,6 +564,42 @@ func scFD(c Case, fc *frameCtx) *evid.Failure {
 			} else {
 				evid.Label("fd:on-link")
 			}
+		}
+	}
+	// echo replies through the fd-based endpoint, IPv4 and IPv6: the request arrives cut into
+	// the endpoint's receive buffers (128, 256, 256, 512, ... bytes), so a reply that hands the
+	// received data back goes down to the link as several views
+	for i, n := range c.Sizes {
+		for _, extra := range []int{0, 61 + int(c.Seed>>9)%12, 300 + int(c.Seed>>13)%200} {
+			sz := n + extra
+			if sz > c.MTU-48 {
+				sz = c.MTU - 48
+			}
+			pl := pattern(c.Seed^uint64(i*131+extra), sz)
+			v6 := (i+extra)%2 == 1
+			var l3 string
+			if v6 {
+				l3 = "ipv6"
+				fd.Write(codec.BuildEth(fd.StackMAC, fd.PeerMAC, codec.EtherIPv6, codec.BuildIPv6(codec.IPv6Hdr{Src: []byte(netsim.B6), Dst: []byte(netsim.A6), NextHeader: codec.ProtoICMPv6, HopLimit: 64},
+					codec.BuildICMPv6Echo([]byte(netsim.B6), []byte(netsim.A6), 128, uint16(i), uint16(extra), pl))))
+			} else {
+				l3 = "ipv4"
+				fd.Write(codec.BuildEth(fd.StackMAC, fd.PeerMAC, codec.EtherIPv4, codec.BuildIPv4(codec.IPv4Hdr{Src: []byte(netsim.B4), Dst: []byte(netsim.A4), Proto: codec.ProtoICMP, TTL: 64},
+					codec.BuildICMPv4Echo(8, uint16(i), uint16(extra), pl))))
+			}
+			ef, ok := fd.ReadMatch(time.Second, func(e netsim.EthFrame) bool { return e.Pkt.L4Kind == "icmp4" || e.Pkt.L4Kind == "icmp6" })
+			if !ok {
+				evid.Label("fd:echo-unanswered")
+				continue
+			}
+			fc.note(ef.Pkt, "eth")
+			if !ef.Pkt.OK() {
+				return evid.Failf("malformed:eth:"+l3+":"+ef.Pkt.L4Kind, "echo reply (request with %d data bytes) from the fd-based endpoint does not decode: %v", sz, ef.Pkt.Errs)
+			}
+			if !bytes.Equal(ef.Pkt.EthSrc, fd.StackMAC) || !bytes.Equal(ef.Pkt.EthDst, fd.PeerMAC) {
+				return evid.Failf("eth-destination", "echo reply for a request from MAC %x left the NIC (%x) as %x > %x", fd.PeerMAC, fd.StackMAC, ef.Pkt.EthSrc, ef.Pkt.EthDst)
+			}
+			evid.Label("fd:echo-reply-" + l3 + ":" + lenClass(sz))
 		}
 	}
 	// the ARP reply the stack gives
